@@ -217,6 +217,13 @@ def main(tier_: str) -> int:
                         lines.append({'ev': 'fwd', 'm': m, 'which': which, 'url': url, 'media_url': murl, 'names': cmp_names, 'given': given,
                                       'usage': {n: usage[n] for n in names}, 'man': {n: man[n] for n in cmp_names},
                                       'med': {n: med[n] for n in cmp_names}, 'url_names': url_names, 'vec': vec})
+            # ---- positions given as times of day (verr / aerr): the number that reaches the media URL names the segment that
+            # contains the instant (the walk is C16's; here it is judged as a question of meaning)
+            from checks.c16 import translation_lines
+            xl = [x for x in translation_lines(da, tier_) if x['ev'] == 'xlate']
+            if len(xl) < 10:
+                raise MachineryFailure(f'only {len(xl)} time-of-day positions were translated')
+            lines += xl
         for i, ln in enumerate(lines):
             ln['tid'] = i + 1
         fw = [x for x in lines if x['ev'] == 'fwd']
@@ -237,6 +244,14 @@ def main(tier_: str) -> int:
                         continue
                     seen.add(key)
                     out.add(Violation('C07', v['clause'], case))
+            elif lo['ev'] == 'xlate':
+                case = {'option': 'verr/aerr', 'url': lo['url'], 'rep': lo['rep'], 'value': lo['value'], 'want': lo['want'], 'got': lo['got']}
+                key = f"{v['clause']}|{lo['rep']}|{lo['want'] - lo['got']}"
+                if key in seen:
+                    continue
+                seen.add(key)
+                out.add(Violation('C07', v['clause'], case))
+                continue
             else:
                 case = {'option': lo['name'], 'raw': lo['raw'], 'v1': lo['v1'], 'v2': lo['v2'], 'err': lo.get('err'), 'text': lo.get('text')}
                 key = f"{v['clause']}|{lo['name']}|{lo['raw']}"
